@@ -1,13 +1,13 @@
 SPECIFICATION Spec
 CONSTANTS
-  Mode = "match"
-  BsIds = {1, 2, 3}
-  MaxMeas = 3
+  Mode = "est"
+  BsIds = {1, 2, 3, 4}
+  MaxMeas = 0
   Deltas <- DeltasQuick
-  Diffs = {0, 1}
-  MinBs = {0, 1, 2}
-  MaxSamples = 0
-  SampleSets <- NoSampleSets
+  Diffs = {0}
+  MinBs = {0}
+  MaxSamples = 3
+  SampleSets <- AllSampleSets
   MaxOutliers = 0
   Bug = "none"
   PrintCases = TRUE
